@@ -173,6 +173,9 @@ class GenInfo:
         self.fn_ranges = []        # (start_line, end_line, key)
         self.used_contracts = set()
         self.used_ghosts = set()
+        self.opaque = []           # functions left unverified because the verifier could not read them
+        self.lost = []             # (contract key, props) whose function no longer exists
+        self.lost_ghosts = []
 
 
 def render_file(path, module, moddir, ctx):
@@ -253,7 +256,26 @@ def render_file(path, module, moddir, ctx):
         # derived denotations
         body = src[f.body_start:f.body_end] if f.has_body else None
         sigtext = src[f.sig_start:f.sig_end]
-        if f.has_body and f.owner.startswith('KeyboardLayout for ') and f.name == 'map_keycode':
+        opaque = key in ctx.get('opaque', ())
+        if opaque and f.has_body:
+            # the verifier could not read this function (construct outside its dialect): leave it unverified (external_body)
+            # with an uninterpreted denotation, so that the rest of the crate can still be decided; every property that
+            # depends on it is reported undecided by the caller
+            attrs += ['#[verifier::external_body]']
+            info.opaque.append(key)
+            if f.owner.startswith('KeyboardLayout for ') and f.name == 'map_keycode':
+                spec_sig = src[f.sig_start:f.sig_end]
+                k0 = spec_sig.index('fn map_keycode')
+                spec_sig = spec_sig[:k0] + 'uninterp spec fn spec_map' + spec_sig[k0 + len('fn map_keycode'):]
+                pre_items = '/*@DERIVED:%s@*/\n    %s;\n/*@ENDDERIVED@*/\n    ' % (key, spec_sig.rstrip())
+            elif f.owner in ('ScancodeSet1', 'ScancodeSet2') and re.match(r'^map_\w*scancode$', f.name) and len(names) == 1:
+                rettype = src[f.ret_span[0]:f.ret_span[1]]
+                pre_items = '/*@DERIVED:%s@*/\n    pub uninterp spec fn spec_%s(%s) -> %s;\n/*@ENDDERIVED@*/\n    ' % (key, f.name, ', '.join(ptexts), rettype)
+                clauses.append(('ensures', key + '/assumed', '%s == Self::spec_%s(%s)' % (ret, f.name, names[0])))
+            if f.owner.startswith('KeyboardLayout for ') and f.name == 'map_keycode':
+                clauses.append(('ensures', key + '/assumed', '%s == self.spec_map(%s)' % (ret, ', '.join(names))))
+            info.obligations[key + '/assumed'] = {'kind': 'assumed', 'props': [], 'fn': key, 'text': 'opaque: function outside the verifier\'s dialect, left unverified'}
+        elif f.has_body and f.owner.startswith('KeyboardLayout for ') and f.name == 'map_keycode':
             copy, stats = derive_layout_copy(src, f)
             spec_sig = src[f.sig_start:f.sig_end]
             k0 = spec_sig.index('fn map_keycode')
@@ -335,18 +357,16 @@ MARK = re.compile(r'/\*@(OB|FN|ENDFN|GHOST|ENDGHOST|DERIVED|ENDDERIVED|LEMMA|END
 CELL = re.compile(r'//\s*CELL\s+(\S+)')
 
 
-def generate(repo, contracts_dir, lemma_texts=(), out_path=None):
+def generate(repo, contracts_dir, lemma_texts=(), out_path=None, opaque=()):
     fncontracts, ghosts = vspec.load_dir(contracts_dir)
     info = GenInfo()
-    ctx = {'info': info, 'fncontracts': fncontracts, 'ghosts': ghosts, 'repo': repo}
+    ctx = {'info': info, 'fncontracts': fncontracts, 'ghosts': ghosts, 'repo': repo, 'opaque': set(opaque)}
     srcdir = os.path.join(repo, 'src')
     body = render_file(os.path.join(srcdir, 'lib.rs'), '', srcdir, ctx)
-    missing = [k for k in fncontracts if k not in info.used_contracts]
-    if missing:
-        raise ExtractError('lost-anchor: contract(s) for function(s) that no longer exist: ' + ', '.join(missing))
-    unused = [g.src for i, g in enumerate(ghosts) if i not in info.used_ghosts]
-    if unused:
-        raise ExtractError('lost-anchor: ghost section(s) with no matching item: ' + ', '.join(unused))
+    # lost anchors: contracts / ghost sections whose item no longer exists. They are recorded, not fatal: the caller
+    # reports every property that depended on them as undecided (exit 2) and runs its bounded stand-ins.
+    info.lost = [(k, fncontracts[k].props) for k in fncontracts if k not in info.used_contracts]
+    info.lost_ghosts = [g.src + ' (' + g.kind + ' ' + g.target + ')' for i, g in enumerate(ghosts) if i not in info.used_ghosts]
     text = HEADER + body + '\n' + '\n'.join(lemma_texts) + FOOTER
     info.text = text
     finalize(info)
